@@ -1,5 +1,6 @@
 import MsqProofs.Props.C04b
 import MsqProofs.Lemmas.LexRetain2
+import MsqProofs.Lemmas.LexRetain2Text
 import MsqProofs.Oblig.RetCfg0
 import MsqProofs.Oblig.RetCfg1
 import MsqProofs.Oblig.RetCfg2
@@ -41,7 +42,7 @@ renders `cls slice` as `)` and an `opn` that was `[` as `(`: `witness_square_com
 is about `pre raw`: `witness_tab_erased`).
 -/
 namespace C04
-open Lex Scan
+open Lex Scan Spec
 
 /-- the classes setting `i` ignores -/
 def ign (i : Fin 8) : Ign := Ign.ofBits i.val
@@ -182,6 +183,45 @@ theorem group_in_text (i : Fin 8) (raw : List Char) (ts : List Tok) (h : lex (cf
   · rw [← msrcL_round ts, e]
     simp [Tok.msrc, MC.round, msrcL_round]
 
+/-- the class `bracket e` is only ever given to a bracket CHARACTER, and the event says which: `opn` for `(` and `[`
+(kind-less: F-C04-1), `cls paren` for `)`, `cls slice` for `]` -/
+theorem bracket_class_is_bracket_char (μ : Mode) (c : Char) (nx : Option Nat) (e : Ev)
+    (h : classOf μ (norm c.toNat) nx = .bracket e) :
+    (e = .opn ∧ (c = '(' ∨ c = '[')) ∨ (e = .cls .paren ∧ c = ')') ∨ (e = .cls .slice ∧ c = ']') :=
+  bracket_class_char μ c nx e h
+
+/-- the closing bracket character of a group kind -/
+def closer : GK → Char
+  | .paren => ')'
+  | .slice => ']'
+
+/-- **C04.group_span** (text level): every group of the tree of an accepted text, at any depth, sits on a piece
+`o t2 c` of the pre-processed input: `o` is a `(` or a `[` read as a bracket (either, whatever the kind of the group:
+F-C04-1), `c` is the closing bracket character of the group's kind, read as a bracket, and the marked rendering of the
+children is exactly the erasure of the text `t2` between the two (read in the mode the scanner is in after `o`, with
+`c` as the character that follows); rendered: `(`, that erased text with round brackets, `)` (F-C04-2). -/
+theorem group_span (i : Fin 8) (raw : List Char) (ts : List Tok) (h : lex (cfgOf i) raw = .ok ts)
+    (k : GK) (cs : List Tok) (mk : Nat) (ho : Occ (.group k cs mk) ts) :
+    ∃ t1 o t2 c t3, (cfgOf i).pre raw = t1 ++ o :: (t2 ++ c :: t3) ∧ (o = '(' ∨ o = '[') ∧ c = closer k ∧
+      msrcL cs = eraseA (ign i) (step (scanAll .N t1).1 (norm o.toNat)).1 t2 (some (norm c.toNat)) ∧
+      Tok.source (.group k cs mk) =
+        '(' :: ((eraseA (ign i) (step (scanAll .N t1).1 (norm o.toNat)).1 t2 (some (norm c.toNat))).map MC.round ++ [')']) := by
+  obtain ⟨p, q, e1, _, _⟩ := group_in_text i raw ts h k cs mk ho
+  have e2 : eraseA (ign i) .N ((cfgOf i).pre raw) none = p ++ .ev .opn :: (msrcL cs ++ .ev (.cls k) :: q) := by
+    rw [← eraseM, e1]; simp
+  obtain ⟨t1, o, b, hb, _, hco, hrest⟩ := eraseA_split (ign i) none .opn _ _ .N p e2
+  obtain ⟨t2, c, t3, hb2, hmid, hcc, _⟩ := eraseA_split (ign i) none (.cls k) q b _ (msrcL cs) hrest
+  refine ⟨t1, o, t2, c, t3, by rw [hb, hb2], ?_, ?_, hmid.symm, ?_⟩
+  · rcases bracket_class_char _ o _ _ hco with ⟨_, ho'⟩ | ⟨he, _⟩ | ⟨he, _⟩
+    · exact ho'
+    · cases he
+    · cases he
+  · rcases bracket_class_char _ c _ _ hcc with ⟨he, _⟩ | ⟨he, hc⟩ | ⟨he, hc⟩
+    · cases he
+    · cases he; exact hc
+    · cases he; exact hc
+  · rw [hmid, msrcL_round]; rfl
+
 /-! ## non-vacuity and the findings on the model (kernel-evaluated) -/
 
 /-- the classes of a small text: a blank, a line comment up to (not including) its line break, brackets, a block
@@ -221,5 +261,12 @@ example : retCheck (ign 7) (cfgOf 0) = false ∧ retCheck (ign 0) (cfgOf 7) = fa
 example : Occ (.group .slice [.single ['1'] 72] 512)
     [.single ['f'] 2, .group .paren [.single ['a'] 2, .group .slice [.single ['1'] 72] 512] 4] :=
   .inside [.single ['f'] 2] [] .paren _ 4 (.here [.single ['a'] 2] [])
+
+/-- the span of the inner group of `f(a[1 ], 2)` under the shipped setting: the text between `[` and `]` is `1 `, its
+erasure `1` -/
+example : eraseA (ign 7) (step (scanAll .N "f(a".toList).1 (norm '['.toNat)).1 "1 ".toList (some (norm ']'.toNat)) =
+    [.ch '1'] ∧ lexesTo (lex (cfgOf 7) "f(a[1 ], 2)".toList)
+      [.single ['f'] 2, .group .paren [.single ['a'] 2, .group .slice [.single ['1'] 72] 512, .single [','] 0,
+        .single ['2'] 72] 4] = true := by decide +kernel
 
 end C04
